@@ -24,9 +24,6 @@ Definition not_under_current_key {blob} (seal : Z -> Z -> payload -> blob) (tamp
            (junk : Z -> blob) (keys : list Z) (b : blob) : Prop :=
   (exists b' i, b = tamper b' i) \/ (exists n, b = junk n) \/ (exists k n p, b = seal k n p /\ ~ In k keys).
 
-Definition no_live_ticket {blob} (used : option (cobj blob)) : Prop :=
-  match used with Some c => c_t10 c = [] | None => True end.
-
 Section Thms.
 Variable blob : Type.
 Variable seal : Z -> Z -> payload -> blob.
@@ -45,15 +42,15 @@ Notation conn_delta' := (conn_delta blob seal open).
 Notation reachable' := (reachable blob seal open tamper junk).
 Notation Inv' := (Inv blob seal tamper junk).
 
-Lemma reach_inv fixed w : reachable' fixed w -> Inv' w.
+Lemma reach_inv w : reachable' w -> Inv' w.
 Proof. apply reachable_inv; assumption. Qed.
 
 Definition offered (w : world') (cp : cparams) : option (cobj blob) :=
   match cp_offer cp with Some i => zget (w_clients w) i | None => None end.
 
 (* ---- what the client put into the hello comes from the offered object ---------------- *)
-Lemma client_offer_ticket fixed cp c0 now fresh h used b :
-  client_offer blob fixed cp c0 now fresh = Offer blob h used -> h_ticket h = Some b ->
+Lemma client_offer_ticket cp c0 now fresh h used b :
+  client_offer blob cp c0 now fresh = Offer blob h used -> h_ticket h = Some b ->
   exists c t, c0 = Some c /\ In t (c_t10 c) /\ tk_blob t = b.
 Proof.
   unfold client_offer. destruct c0 as [c00|]; [|intros H; injection H as <- _; cbn; discriminate].
@@ -69,8 +66,8 @@ Proof.
   exists c00, t. split; [reflexivity|]. split; [apply I2; left; reflexivity|reflexivity].
 Qed.
 
-Lemma client_offer_psk fixed cp c0 now fresh h used b bk :
-  client_offer blob fixed cp c0 now fresh = Offer blob h used -> h_psk h = Some (b, bk) ->
+Lemma client_offer_psk cp c0 now fresh h used b bk :
+  client_offer blob cp c0 now fresh = Offer blob h used -> h_psk h = Some (b, bk) ->
   exists c t, c0 = Some c /\ In t (c_t13 c) /\ tk_blob t = b /\ bk = c_rms c.
 Proof.
   unfold client_offer. destruct c0 as [c00|]; [|intros H; injection H as <- _; cbn; discriminate].
@@ -92,8 +89,8 @@ Proof.
   split; [reflexivity|]. rewrite R3, R2. reflexivity.
 Qed.
 
-Lemma client_offer_sid fixed cp c0 now fresh h used :
-  client_offer blob fixed cp c0 now fresh = Offer blob h used ->
+Lemma client_offer_sid cp c0 now fresh h used :
+  client_offer blob cp c0 now fresh = Offer blob h used ->
   h_sid h = 0 \/ h_sid h = fresh \/ (exists c, used = Some c /\ h_sid h = s_sid (c_sess c)).
 Proof.
   unfold client_offer. repeat break_inner; intros H; try discriminate; injection H as <- <-; cbn [h_sid]; auto.
@@ -101,43 +98,43 @@ Proof.
 Qed.
 
 (* ---- inversion: a log entry that says "resumed" ----------------------------------------- *)
-Lemma delta_resumed12_inv fixed w cp sv cr :
-  r_out (d_log blob (conn_delta' fixed w cp sv)) = ODone true cr ->
-  r_ver (d_log blob (conn_delta' fixed w cp sv)) < 4 ->
+Lemma delta_resumed12_inv w cp sv cr :
+  r_out (d_log blob (conn_delta' w cp sv)) = ODone true cr ->
+  r_ver (d_log blob (conn_delta' w cp sv)) < 4 ->
   exists h used st1 s o,
-    client_offer blob fixed cp (offered w cp) (w_now w) (w_fresh w) = Offer blob h used /\
+    client_offer blob cp (offered w cp) (w_now w) (w_fresh w) = Offer blob h used /\
     server_try_resume blob open (sv_cfg sv) (sv_store sv) (o_acc cp) h (w_now w) = (st1, SResume s o) /\
-    r_hello (d_log blob (conn_delta' fixed w cp sv)) = Some h /\
-    r_sview (d_log blob (conn_delta' fixed w cp sv)) = Some s /\
-    r_src (d_log blob (conn_delta' fixed w cp sv)) = Some o.
+    r_hello (d_log blob (conn_delta' w cp sv)) = Some h /\
+    r_sview (d_log blob (conn_delta' w cp sv)) = Some s /\
+    r_src (d_log blob (conn_delta' w cp sv)) = Some o.
 Proof.
   unfold offered. delta_cases; cbn [r_out r_ver r_hello r_sview r_src]; intros H Hv; try discriminate;
     try (match goal with H : (4 <=? _) = true |- _ => apply Z.leb_le in H end; lia).
   all: do 5 eexists; repeat split; try reflexivity; eassumption.
 Qed.
 
-Lemma delta_resumed13_inv fixed w cp sv cr :
-  r_out (d_log blob (conn_delta' fixed w cp sv)) = ODone true cr ->
-  4 <= r_ver (d_log blob (conn_delta' fixed w cp sv)) ->
+Lemma delta_resumed13_inv w cp sv cr :
+  r_out (d_log blob (conn_delta' w cp sv)) = ODone true cr ->
+  4 <= r_ver (d_log blob (conn_delta' w cp sv)) ->
   exists h used k p s,
-    client_offer blob fixed cp (offered w cp) (w_now w) (w_fresh w) = Offer blob h used /\
-    server_psk blob open (sv_cfg sv) cp h = S13Psk k p /\
-    r_hello (d_log blob (conn_delta' fixed w cp sv)) = Some h /\
-    r_sview (d_log blob (conn_delta' fixed w cp sv)) = Some s /\
-    r_src (d_log blob (conn_delta' fixed w cp sv)) = Some (ByPsk k) /\
+    client_offer blob cp (offered w cp) (w_now w) (w_fresh w) = Offer blob h used /\
+    server_psk blob open (sv_cfg sv) cp h (w_now w) = S13Psk k p /\
+    r_hello (d_log blob (conn_delta' w cp sv)) = Some h /\
+    r_sview (d_log blob (conn_delta' w cp sv)) = Some s /\
+    r_src (d_log blob (conn_delta' w cp sv)) = Some (ByPsk k) /\
     s_ccert s = p_ccert p /\ s_hash s = p_hash p /\ s_ems s = true /\ s_etm s = false /\ s_origin s = p_origin p.
 Proof.
   unfold offered. delta_cases; cbn [r_out r_ver r_hello r_sview r_src]; intros H Hv; try discriminate;
     try (match goal with H : (4 <=? _) = false |- _ => apply Z.leb_gt in H end; lia).
-  all: match goal with H : server_psk _ _ _ _ _ = S13Psk _ ?p |- _ =>
-         pose proof (server_psk_sound _ _ _ _ _ _ _ H) as [b0 [bk0 [_ [_ [_ [_ [Hh _]]]]]]] end.
+  all: match goal with H : server_psk _ _ _ _ _ _ = S13Psk _ ?p |- _ =>
+         pose proof (server_psk_sound _ _ _ _ _ _ _ _ H) as [b0 [bk0 [_ [_ [_ [_ [_ [Hh _]]]]]]]] end.
   all: do 5 eexists; repeat split; try reflexivity; try eassumption; cbn; congruence.
 Qed.
 
 (* ---- resume_sound + resume_preserves, TLS <= 1.2 ------------------------------------------ *)
-Theorem resume_sound_preserves12 fixed w cp sv cr :
-  reachable' fixed w -> zget (w_servers w) (cp_srv cp) = Some sv ->
-  let r := d_log blob (conn_delta' fixed w cp sv) in
+Theorem resume_sound_preserves12 w cp sv cr :
+  reachable' w -> zget (w_servers w) (cp_srv cp) = Some sv ->
+  let r := d_log blob (conn_delta' w cp sv) in
   r_out r = ODone true cr -> r_ver r < 4 ->
   exists h s o,
     r_hello r = Some h /\ r_sview r = Some s /\ r_src r = Some o /\
@@ -150,10 +147,10 @@ Theorem resume_sound_preserves12 fixed w cp sv cr :
     exists r0 v0, In r0 (w_log w) /\ is_done (r_out r0) /\ r_sview r0 = Some v0 /\ same_security s v0 /\
                   (o = ByCache -> r_out r0 = ODone false false /\ v0 = s).
 Proof.
-  intros HR Z r Hout Hver. pose proof (reach_inv _ _ HR) as HI.
+  intros HR Z r Hout Hver. pose proof (reach_inv _ HR) as HI.
   pose proof (zget_in _ _ _ Z) as Hsv.
   destruct (inv_sorted _ _ _ _ _ HI sv Hsv) as [Hsorted _].
-  destruct (delta_resumed12_inv _ _ _ _ _ Hout Hver) as [h [used [st1 [s [o [CO [TR [Hh [Hs Ho]]]]]]]]].
+  destruct (delta_resumed12_inv _ _ _ _ Hout Hver) as [h [used [st1 [s [o [CO [TR [Hh [Hs Ho]]]]]]]]].
   destruct (server_try_resume_sound _ _ _ _ _ _ _ _ _ _ Hsorted TR) as [Hacc [Hcons Hpath]].
   exists h, s, o. split; [exact Hh|]. split; [exact Hs|]. split; [exact Ho|]. split; [exact Hacc|].
   split; [exact Hcons|]. split; [exact Hpath|].
@@ -164,7 +161,7 @@ Proof.
     exists r0, s. rewrite B in R3. split; [exact R1|]. split; [rewrite R2; eexists; eexists; reflexivity|].
     split; [exact R3|]. split; [repeat split; reflexivity|]. intros _. split; [exact R2|reflexivity].
   - destruct Hpath as [b [p [HT [K [O [L ->]]]]]].
-    destruct (client_offer_ticket _ _ _ _ _ _ _ _ CO HT) as [c [t [Hc0 [Ht Hb]]]].
+    destruct (client_offer_ticket _ _ _ _ _ _ _ CO HT) as [c [t [Hc0 [Ht Hb]]]].
     assert (In c (w_clients w)) as Hc.
     { unfold offered in Hc0. destruct (cp_offer cp) as [i|]; [|discriminate]. eapply zget_in. exact Hc0. }
     assert (blob_ok blob seal tamper junk (w_issued w) b) as Hok.
@@ -176,24 +173,29 @@ Proof.
     destruct P as [P1 [P2 [P3 [P4 [P5 [P6 [P7 [P8 P9]]]]]]]]. unfold same_security. cbn. auto 10.
 Qed.
 
-(* ---- TLS 1.3 (partial: no lifetime, no server name, no suite) ------------------------------- *)
-Theorem resume_sound_preserves13_partial fixed w cp sv cr :
-  reachable' fixed w -> zget (w_servers w) (cp_srv cp) = Some sv ->
-  let r := d_log blob (conn_delta' fixed w cp sv) in
+(* ---- TLS 1.3 PSK ---------------------------------------------------------------------------- *)
+(* soundness is complete since /repo e172bf7 (lifetime); before it the lifetime conjunct was refuted by
+   [TLS 1.3 handshake, lifetime 100 s; close; 1000 s pass; a client that keeps the ticket offers it].
+   Preservation stays partial: server name and suite of the issuing connection are NOT kept (RFC 8446
+   permits; witness tls13_sni_suite_refuted_witness). *)
+Theorem resume_sound_preserves13 w cp sv cr :
+  reachable' w -> zget (w_servers w) (cp_srv cp) = Some sv ->
+  let r := d_log blob (conn_delta' w cp sv) in
   r_out r = ODone true cr -> 4 <= r_ver r ->
   exists h b bk k p s,
     r_hello r = Some h /\ h_psk h = Some (b, bk) /\ r_sview r = Some s /\ r_src r = Some (ByPsk k) /\
-    In k (sv_keys (sv_cfg sv)) /\ open k b = Some p /\ p_ver p = 4 /\ p_hash p = o_fhash cp /\ bk = p_ms p /\
+    In k (sv_keys (sv_cfg sv)) /\ open k b = Some p /\ p_ver p = 4 /\
+    w_now w <= p_created p + sv_life (sv_cfg sv) /\ p_hash p = o_fhash cp /\ bk = p_ms p /\
     exists r0 v0, In r0 (w_log w) /\ is_done (r_out r0) /\ r_sview r0 = Some v0 /\
                   s_ccert s = s_ccert v0 /\ s_hash s = s_hash v0 /\ s_ems s = true /\ s_etm s = false /\
                   s_origin s = s_origin v0.
 Proof.
-  intros HR Z r Hout Hver. pose proof (reach_inv _ _ HR) as HI.
-  destruct (delta_resumed13_inv _ _ _ _ _ Hout Hver) as [h [used [k [p [s [CO [PS [Hh [Hs [Ho [E1 [E2 [E3 [E4 E5]]]]]]]]]]]]]].
-  destruct (server_psk_sound _ _ _ _ _ _ _ PS) as [b [bk [HP [K [O [V [Hh2 B]]]]]]].
+  intros HR Z r Hout Hver. pose proof (reach_inv _ HR) as HI.
+  destruct (delta_resumed13_inv _ _ _ _ Hout Hver) as [h [used [k [p [s [CO [PS [Hh [Hs [Ho [E1 [E2 [E3 [E4 E5]]]]]]]]]]]]]].
+  destruct (server_psk_sound _ _ _ _ _ _ _ _ PS) as [b [bk [HP [K [O [V [Lf [Hh2 B]]]]]]]].
   exists h, b, bk, k, p, s. split; [exact Hh|]. split; [exact HP|]. split; [exact Hs|]. split; [exact Ho|].
-  split; [exact K|]. split; [exact O|]. split; [exact V|]. split; [exact Hh2|]. split; [exact B|].
-  destruct (client_offer_psk _ _ _ _ _ _ _ _ _ CO HP) as [c [t [Hc0 [Ht [Hb _]]]]].
+  split; [exact K|]. split; [exact O|]. split; [exact V|]. split; [exact Lf|]. split; [exact Hh2|]. split; [exact B|].
+  destruct (client_offer_psk _ _ _ _ _ _ _ _ CO HP) as [c [t [Hc0 [Ht [Hb _]]]]].
   assert (In c (w_clients w)) as Hc.
   { unfold offered in Hc0. destruct (cp_offer cp) as [i|]; [|discriminate]. eapply zget_in. exact Hc0. }
   assert (blob_ok blob seal tamper junk (w_issued w) b) as Hok.
@@ -224,9 +226,9 @@ Proof.
   apply not_current_unopenable. exact HN.
 Qed.
 
-Theorem psk_forgery_rejected cfg cp (h : hello blob) b bk :
+Theorem psk_forgery_rejected cfg cp (h : hello blob) now b bk :
   h_psk h = Some (b, bk) -> not_under_current_key seal tamper junk (sv_keys cfg) b ->
-  server_psk blob open cfg cp h = S13Full.
+  server_psk blob open cfg cp h now = S13Full.
 Proof.
   intros HP HN. apply server_psk_unopenable with (b := b) (bk := bk); [exact HP|].
   apply not_current_unopenable. exact HN.
@@ -235,16 +237,16 @@ Qed.
 (* ---- invalidated sessions -------------------------------------------------------------------- *)
 (* server side: once a connection bound to the cached session died abnormally at the server
    (fatal alert or abrupt close seen), no later connection, in any continuation, resumes it by ID *)
-Theorem invalidated_never_resumes_by_id fixed w cp sv cr crec sid :
-  reachable' fixed w -> zget (w_servers w) (cp_srv cp) = Some sv ->
+Theorem invalidated_never_resumes_by_id w cp sv cr crec sid :
+  reachable' w -> zget (w_servers w) (cp_srv cp) = Some sv ->
   In crec (w_conns w) -> cr_ks crec = true -> cr_sobj crec = Some sid -> cr_srv crec = cp_srv cp ->
-  let r := d_log blob (conn_delta' fixed w cp sv) in
+  let r := d_log blob (conn_delta' w cp sv) in
   r_out r = ODone true cr -> r_ver r < 4 -> r_src r = Some ByCache ->
   forall s, r_sview r = Some s -> s_sid s <> sid.
 Proof.
   intros HR Z Hin Hks Hso Hsrv r Hout Hver Hsrc s Hs Heq.
-  pose proof (reach_inv _ _ HR) as HI.
-  destruct (resume_sound_preserves12 fixed w cp sv cr HR Z Hout Hver)
+  pose proof (reach_inv _ HR) as HI.
+  destruct (resume_sound_preserves12 w cp sv cr HR Z Hout Hver)
     as [h [s' [o [_ [Hs' [Ho [_ [_ [Hpath _]]]]]]]]].
   fold r in Hs', Ho. rewrite Hs in Hs'. injection Hs' as <-. rewrite Hsrc in Ho. injection Ho as <-.
   destruct Hpath as [_ [_ [_ [_ [e [A [B [C _]]]]]]]].
@@ -254,20 +256,20 @@ Proof.
 Qed.
 
 (* client side: an object whose resumable flag is cleared is never offered and nothing is resumed *)
-Theorem invalidated_never_offered fixed w cp sv i c0 :
-  reachable' fixed w -> zget (w_servers w) (cp_srv cp) = Some sv ->
+Theorem invalidated_never_offered w cp sv i c0 :
+  reachable' w -> zget (w_servers w) (cp_srv cp) = Some sv ->
   cp_offer cp = Some i -> zget (w_clients w) i = Some c0 -> c_res c0 = false ->
-  let r := d_log blob (conn_delta' fixed w cp sv) in
+  let r := d_log blob (conn_delta' w cp sv) in
   r_offer_valid r = false /\ forall cr, r_out r <> ODone true cr.
 Proof.
-  intros HR Z Hoff Hc0 Hres r. pose proof (reach_inv _ _ HR) as HI.
-  assert (client_offer blob fixed cp (offered w cp) (w_now w) (w_fresh w) =
+  intros HR Z Hoff Hc0 Hres r. pose proof (reach_inv _ HR) as HI.
+  assert (client_offer blob cp (offered w cp) (w_now w) (w_fresh w) =
           Offer blob {| h_maxv := cp_maxv cp;
                         h_sid := if 4 <=? cp_maxv cp then w_fresh w else 0;
                         h_suites := cp_suites cp; h_ems := cp_ems cp; h_etm := cp_etm cp;
                         h_sni := cp_sni cp; h_srp := cp_srp cp; h_ticket := None; h_psk := None |} None) as CO.
   { unfold offered. rewrite Hoff, Hc0. unfold client_offer, c_valid. rewrite Hres. cbn [andb].
-    destruct (4 <=? cp_maxv cp); [reflexivity|]. rewrite andb_false_r. reflexivity. }
+    destruct (4 <=? cp_maxv cp); reflexivity. }
   assert (forall e, In e (sv_store sv) -> s_sid (ce_sess e) < w_fresh w) as Hfr.
   { intros e He. apply (inv_fresh_s _ _ _ _ _ HI). exists sv. split; [eapply zget_in; exact Z|exact He]. }
   split.
@@ -275,7 +277,7 @@ Proof.
     repeat break_inner; cbn [d_log r_offer_valid]; unfold c_valid; rewrite Hres; reflexivity.
   - intros cr Hout.
     destruct (Z_lt_le_dec (r_ver r) 4) as [Hv|Hv].
-    + destruct (delta_resumed12_inv _ _ _ _ _ Hout Hv) as [h [used [st1 [s [o [CO' [TR _]]]]]]].
+    + destruct (delta_resumed12_inv _ _ _ _ Hout Hv) as [h [used [st1 [s [o [CO' [TR _]]]]]]].
       rewrite CO in CO'. injection CO' as <- <-.
       assert (snd (server_try_resume blob open (sv_cfg sv) (sv_store sv) (o_acc cp)
                  {| h_maxv := cp_maxv cp; h_sid := if 4 <=? cp_maxv cp then w_fresh w else 0;
@@ -287,61 +289,58 @@ Proof.
         apply cache_find_some in F. destruct F as [A B]. apply purge_incl in A.
         specialize (Hfr e A). lia. }
       rewrite TR in K. discriminate.
-    + destruct (delta_resumed13_inv _ _ _ _ _ Hout Hv) as [h [used [k [p [s [CO' [PS _]]]]]]].
+    + destruct (delta_resumed13_inv _ _ _ _ Hout Hv) as [h [used [k [p [s [CO' [PS _]]]]]]].
       rewrite CO in CO'. injection CO' as <- <-. unfold server_psk in PS. cbn [h_psk] in PS. discriminate.
 Qed.
 
 (* ---- fallback: when the server declines, both ends complete a full handshake ------------------- *)
-Lemma no_misread fixed w cp h used sid :
-  Inv' w -> client_offer blob fixed cp (offered w cp) (w_now w) (w_fresh w) = Offer blob h used ->
-  (sid = 0 \/ sid = w_fresh w + 1) -> (fixed = true \/ no_live_ticket used) ->
-  client_resume_branch blob fixed used h sid = false.
+(* A ServerHello of a full handshake carries session_id 0 or a fresh one; the (repaired) client never
+   takes it for a resumption.  Before /repo 51120a0 this was false whenever the offered session held a
+   live TLS<=1.2 ticket (finding F1: fallback_completes was refuted by the history
+   [full handshake with ticket under key 1; close; server replaces the key; connect offering the session]). *)
+Lemma no_misread w cp h used sid :
+  Inv' w -> client_offer blob cp (offered w cp) (w_now w) (w_fresh w) = Offer blob h used ->
+  (sid = 0 \/ sid = w_fresh w + 1) ->
+  client_resume_branch blob used h sid = false.
 Proof.
-  intros HI CO Hsid Hcond. unfold client_resume_branch. destruct used as [c|]; [|reflexivity].
-  destruct (client_offer_used _ _ _ _ _ _ _ _ _ CO eq_refl) as [c00 [E [P _]]].
+  intros HI CO Hsid. unfold client_resume_branch. destruct used as [c|]; [|reflexivity].
+  destruct (client_offer_used _ _ _ _ _ _ _ _ CO eq_refl) as [c00 [E [P _]]].
   assert (s_sid (c_sess c) < w_fresh w) as Hlt.
   { destruct P as [-> _]. apply (inv_fresh_c _ _ _ _ _ HI). unfold offered in E.
     destruct (cp_offer cp) as [i|]; [|discriminate]. eapply zget_in. exact E. }
   pose proof (inv_pos _ _ _ _ _ HI) as Hpos.
-  destruct fixed.
-  - destruct Hsid as [->| ->]; [reflexivity|].
-    destruct (client_offer_sid _ _ _ _ _ _ _ CO) as [Hs|[Hs|[c' [Ec Hs]]]].
-    + rewrite Hs. replace (w_fresh w + 1 =? 0) with false by (symmetry; apply Z.eqb_neq; lia).
-      rewrite andb_false_r. reflexivity.
-    + rewrite Hs. replace (w_fresh w + 1 =? w_fresh w) with false by (symmetry; apply Z.eqb_neq; lia).
-      rewrite andb_false_r. reflexivity.
-    + injection Ec as <-. rewrite Hs.
-      replace (w_fresh w + 1 =? s_sid (c_sess c)) with false by (symmetry; apply Z.eqb_neq; lia).
-      rewrite andb_false_r. reflexivity.
-  - destruct Hcond as [Hf|Hn]; [discriminate|]. cbn [no_live_ticket] in Hn. rewrite Hn. cbn [nonempty].
-    rewrite orb_false_r. destruct Hsid as [->| ->].
-    + destruct (nz (s_sid (c_sess c))) eqn:N; [|reflexivity]. apply nz_true in N. cbn [andb].
-      apply Z.eqb_neq. lia.
-    + replace (w_fresh w + 1 =? s_sid (c_sess c)) with false by (symmetry; apply Z.eqb_neq; lia).
-      apply andb_false_r.
+  destruct Hsid as [->| ->]; [reflexivity|].
+  destruct (client_offer_sid _ _ _ _ _ _ CO) as [Hs|[Hs|[c' [Ec Hs]]]].
+  - rewrite Hs. replace (w_fresh w + 1 =? 0) with false by (symmetry; apply Z.eqb_neq; lia).
+    rewrite andb_false_r. reflexivity.
+  - rewrite Hs. replace (w_fresh w + 1 =? w_fresh w) with false by (symmetry; apply Z.eqb_neq; lia).
+    rewrite andb_false_r. reflexivity.
+  - injection Ec as <-. rewrite Hs.
+    replace (w_fresh w + 1 =? s_sid (c_sess c)) with false by (symmetry; apply Z.eqb_neq; lia).
+    rewrite andb_false_r. reflexivity.
 Qed.
 
-Theorem fallback_completes_partial fixed w cp sv h used :
-  reachable' fixed w -> zget (w_servers w) (cp_srv cp) = Some sv ->
-  client_offer blob fixed cp (offered w cp) (w_now w) (w_fresh w) = Offer blob h used ->
+Theorem fallback_completes_all w cp sv h used :
+  reachable' w -> zget (w_servers w) (cp_srv cp) = Some sv ->
+  client_offer blob cp (offered w cp) (w_now w) (w_fresh w) = Offer blob h used ->
   o_fsuite cp <> 0 ->
-  let r := d_log blob (conn_delta' fixed w cp sv) in
+  let r := d_log blob (conn_delta' w cp sv) in
   let v := Z.min (cp_maxv cp) (sv_maxv (sv_cfg sv)) in
-  (4 <= v -> server_psk blob open (sv_cfg sv) cp h = S13Full -> r_out r = ODone false false) /\
+  (4 <= v -> server_psk blob open (sv_cfg sv) cp h (w_now w) = S13Full -> r_out r = ODone false false) /\
   (v < 4 -> snd (server_try_resume blob open (sv_cfg sv) (sv_store sv) (o_acc cp) h (w_now w)) = SFull ->
-   fixed = true \/ no_live_ticket used -> r_out r = ODone false false).
+   r_out r = ODone false false).
 Proof.
-  intros HR Z CO Hfs r v. pose proof (reach_inv _ _ HR) as HI.
+  intros HR Z CO Hfs r v. pose proof (reach_inv _ HR) as HI.
   apply Z.eqb_neq in Hfs. split.
   - intros Hv Hd. unfold r, conn_delta. cbv zeta. unfold offered in CO. rewrite CO.
     apply Z.leb_le in Hv. fold v. rewrite Hv, Hfs, Hd. reflexivity.
-  - intros Hv Hd Hcond. unfold r, conn_delta. cbv zeta. pose proof CO as CO'. unfold offered in CO'. rewrite CO'.
+  - intros Hv Hd. unfold r, conn_delta. cbv zeta. pose proof CO as CO'. unfold offered in CO'. rewrite CO'.
     apply Z.leb_gt in Hv. fold v. rewrite Hv.
     destruct (server_try_resume blob open (sv_cfg sv) (sv_store sv) (o_acc cp) h (w_now w)) as [st1 d].
     cbn [snd] in Hd. subst d. rewrite Hfs.
     destruct (sv_usecache (sv_cfg sv)).
-    + rewrite (no_misread fixed w cp h used (w_fresh w + 1) HI CO (or_intror eq_refl) Hcond). reflexivity.
-    + rewrite (no_misread fixed w cp h used 0 HI CO (or_introl eq_refl) Hcond). reflexivity.
+    + rewrite (no_misread w cp h used (w_fresh w + 1) HI CO (or_intror eq_refl)). reflexivity.
+    + rewrite (no_misread w cp h used 0 HI CO (or_introl eq_refl)). reflexivity.
 Qed.
 
 End Thms.
@@ -363,51 +362,42 @@ Definition wit_cp (maxv : Z) (offer : option Z) (sni suite : Z) : cparams :=
      cp_srp := 0; cp_ccert := 1; cp_offer := offer; o_acc := [4865; 4867; 49199]; o_fsuite := suite; o_fcbc := false;
      o_fhash := 256; o_falert := 40 |}.
 
-(* F1: TLS 1.2, ticket issued under key 1, key replaced by 7, the client offers the session again *)
+(* The history that refuted fallback_completes before /repo 51120a0 (F1): TLS 1.2, ticket issued under
+   key 1, key replaced by 7, the client offers the session again.  Now: declined, full handshake completes. *)
 Definition wit_f1_history : list event :=
   [EConn (wit_cp 3 None 1 49199); EClose 0 0; ECfg 0 (wit_cfg 3 [7] 400)].
 
-Lemma fallback_refuted_witness :
-  let w := srun false [wit_cfg 3 [1] 400] wit_f1_history in
+Lemma fallback_f1_history_completes :
+  let w := srun [wit_cfg 3 [1] 400] wit_f1_history in
   let cp := wit_cp 3 (Some 0) 1 49199 in
   exists sv h used,
     zget (w_servers w) 0 = Some sv /\
-    client_offer sblob false cp (offered sblob w cp) (w_now w) (w_fresh w) = Offer sblob h used /\
+    client_offer sblob cp (offered sblob w cp) (w_now w) (w_fresh w) = Offer sblob h used /\
+    h_ticket h <> None /\
     snd (server_try_resume sblob sopen (sv_cfg sv) (sv_store sv) (o_acc cp) h (w_now w)) = SFull /\
-    o_fsuite cp <> 0 /\
-    r_out (d_log sblob (conn_delta sblob Sealed sopen false w cp sv)) = OAbortC unexpected_message.
+    r_out (d_log sblob (conn_delta sblob Sealed sopen w cp sv)) = ODone false false.
 Proof.
   cbv zeta. eexists. eexists. eexists.
   split; [vm_compute; reflexivity|]. split; [vm_compute; reflexivity|].
-  split; [vm_compute; reflexivity|]. split; [discriminate|]. vm_compute. reflexivity.
+  split; [vm_compute; discriminate|]. split; vm_compute; reflexivity.
 Qed.
 
-(* the same history with the repaired client completes *)
-Lemma fallback_fixed_witness :
-  let w := srun true [wit_cfg 3 [1] 400] wit_f1_history in
-  let cp := wit_cp 3 (Some 0) 1 49199 in
-  exists sv, zget (w_servers w) 0 = Some sv /\
-    r_out (d_log sblob (conn_delta sblob Sealed sopen true w cp sv)) = ODone false false.
-Proof. cbv zeta. eexists. split; vm_compute; reflexivity. Qed.
-
-(* TLS 1.3: a ticket is accepted long after ticketLifetime (100 s) by a client that keeps it *)
+(* The history that refuted the TLS 1.3 lifetime conjunct before /repo e172bf7: ticketLifetime 100 s,
+   offered 1000 s later by a client that keeps it.  Now: declined, full handshake completes. *)
 Definition wit_13_expired : list event :=
   [EConn (wit_cp 4 None 1 4865); EClose 0 0; ETick 4000; EDevKeep 0].
 
-Lemma tls13_lifetime_refuted_witness :
-  let w := srun false [wit_cfg 4 [1] 400] wit_13_expired in
+Lemma tls13_expired_history_declined :
+  let w := srun [wit_cfg 4 [1] 400] wit_13_expired in
   let cp := wit_cp 4 (Some 0) 1 4865 in
-  exists sv h b bk p,
+  exists sv h,
     zget (w_servers w) 0 = Some sv /\
-    r_out (d_log sblob (conn_delta sblob Sealed sopen false w cp sv)) = ODone true true /\
-    r_hello (d_log sblob (conn_delta sblob Sealed sopen false w cp sv)) = Some h /\
-    h_psk h = Some (b, bk) /\ sopen 1 b = Some p /\
-    p_created p + sv_life (sv_cfg sv) < w_now w.
+    r_hello (d_log sblob (conn_delta sblob Sealed sopen w cp sv)) = Some h /\ h_psk h <> None /\
+    r_out (d_log sblob (conn_delta sblob Sealed sopen w cp sv)) = ODone false false.
 Proof.
-  cbv zeta. do 5 eexists.
+  cbv zeta. eexists. eexists.
   split; [vm_compute; reflexivity|]. split; [vm_compute; reflexivity|].
-  split; [vm_compute; reflexivity|]. split; [vm_compute; reflexivity|].
-  split; [vm_compute; reflexivity|]. vm_compute. reflexivity.
+  split; [vm_compute; discriminate|]. vm_compute. reflexivity.
 Qed.
 
 (* TLS 1.3: the resumed connection reports another server name / suite than the one that issued the ticket *)
@@ -415,12 +405,12 @@ Definition wit_13_sni : list event :=
   [EConn (wit_cp 4 None 1 4865); EClose 0 0; EDevSni 0 2].
 
 Lemma tls13_sni_suite_refuted_witness :
-  let w := srun false [wit_cfg 4 [1] 400] wit_13_sni in
+  let w := srun [wit_cfg 4 [1] 400] wit_13_sni in
   let cp := wit_cp 4 (Some 0) 2 4867 in
   exists sv s r0 v0,
     zget (w_servers w) 0 = Some sv /\
-    r_out (d_log sblob (conn_delta sblob Sealed sopen false w cp sv)) = ODone true true /\
-    r_sview (d_log sblob (conn_delta sblob Sealed sopen false w cp sv)) = Some s /\
+    r_out (d_log sblob (conn_delta sblob Sealed sopen w cp sv)) = ODone true true /\
+    r_sview (d_log sblob (conn_delta sblob Sealed sopen w cp sv)) = Some s /\
     nth_error (w_log w) 0 = Some r0 /\ r_sview r0 = Some v0 /\
     s_ccert s = s_ccert v0 /\ s_ccert s = 1 /\ s_sni s <> s_sni v0 /\ s_suite s <> s_suite v0.
 Proof.
@@ -435,12 +425,12 @@ Qed.
 Definition wit_ticket_survives : list event := [EConn (wit_cp 3 None 1 49199); EClose 0 2].
 
 Lemma ticket_outlives_invalidation_witness :
-  let w := srun false [wit_cfg 3 [1] 400] wit_ticket_survives in
+  let w := srun [wit_cfg 3 [1] 400] wit_ticket_survives in
   let cp := wit_cp 3 (Some 0) 1 49199 in
   exists sv crec,
     zget (w_servers w) 0 = Some sv /\ nth_error (w_conns w) 0 = Some crec /\ cr_ks crec = true /\
-    r_out (d_log sblob (conn_delta sblob Sealed sopen false w cp sv)) = ODone true true /\
-    r_src (d_log sblob (conn_delta sblob Sealed sopen false w cp sv)) = Some (ByTicket 1).
+    r_out (d_log sblob (conn_delta sblob Sealed sopen w cp sv)) = ODone true true /\
+    r_src (d_log sblob (conn_delta sblob Sealed sopen w cp sv)) = Some (ByTicket 1).
 Proof.
   cbv zeta. do 2 eexists. repeat split; vm_compute; reflexivity.
 Qed.
